@@ -87,12 +87,14 @@ def second_parameter(model, p1):
     return 0.3 * p1 + 0.4
 
 
-def params(model, S, variant):
+def params(model, S, variant, jump=None):
     """(kwargs for the model, first(c, li), second(c, li)) - parameter entry of cohort c and label li"""
     cfg = S.cfg
     p8 = cfg["prm8"]
 
-    jump = variant % 3 == 2 and cfg["prmkind"] in ("cohort", "both")
+    if jump is None:
+        jump = variant % 3 == 2
+    jump = jump and cfg["prmkind"] in ("cohort", "both")
 
     def p1(c, li):
         # (every third variant: the parameter JUMPS by a factor 4 at the middle cohort - later cohorts live much longer;
